@@ -36,6 +36,8 @@ impl<Job> Drop for JobBroker<Job> {
         market.open = false;
         market.job_batches.clear();
         market.open_count = market.open_count.saturating_sub(1);
+        #[cfg(getong_stateright_verif)]
+        verif::emit(self, &market, "Drop", 0, 0);
         self.has_new_jobs.notify_all();
     }
 }
@@ -66,21 +68,31 @@ where
                 job_batches: Vec::new(),
             })),
         };
+        #[cfg(getong_stateright_verif)]
+        verif::emit(&s, &s.market.lock(), "New", thread_count, close_at.is_some() as usize);
         if let Some(closing_time) = close_at {
             let s1 = s.clone();
             std::thread::Builder::new()
                 .name("timeout".to_owned())
                 .spawn(move || loop {
                     let mut market = s1.market.lock();
+                    #[cfg(getong_stateright_verif)]
+                    let _lock_scope = verif::LockScopeProbe::enter();
                     let now = SystemTime::now();
                     if closing_time < now {
                         log::debug!("Reached timeout, triggering shutdown");
                         market.open = false;
                     }
+                    #[cfg(getong_stateright_verif)]
+                    verif::emit(&s1, &market, "TimeoutPoll", (closing_time < now) as usize, 0);
                     if !market.open {
                         break;
                     }
+                    #[cfg(getong_stateright_verif)]
+                    verif::emit_unlocked(&s1, "TimeoutSleepBegin", verif::LockScopeProbe::held() as usize);
                     sleep(Duration::from_secs(1));
+                    #[cfg(getong_stateright_verif)]
+                    verif::emit_unlocked(&s1, "TimeoutSleepEnd", 0);
                 })
                 .unwrap();
         }
@@ -95,6 +107,8 @@ impl<Job> JobBroker<Job> {
     pub fn pop(&mut self) -> VecDeque<Job> {
         let mut market = self.market.lock();
         if !market.open {
+            #[cfg(getong_stateright_verif)]
+            verif::emit(self, &market, "PopClosed", 0, 0);
             return VecDeque::new();
         }
         loop {
@@ -103,6 +117,8 @@ impl<Job> JobBroker<Job> {
                     "{}: Got jobs. Working.",
                     std::thread::current().name().unwrap_or_default()
                 );
+                #[cfg(getong_stateright_verif)]
+                verif::emit(self, &market, "PopGot", jobs.len(), 0);
                 return jobs;
             } else {
                 // Otherwise more work may become available.
@@ -116,6 +132,8 @@ impl<Job> JobBroker<Job> {
                     );
                     self.has_new_jobs.notify_all();
                     market.open = false;
+                    #[cfg(getong_stateright_verif)]
+                    verif::emit(self, &market, "PopLastClose", 0, 0);
                     return VecDeque::new();
                 }
                 log::trace!(
@@ -123,8 +141,12 @@ impl<Job> JobBroker<Job> {
                     std::thread::current().name().unwrap_or_default(),
                     market.open_count
                 );
+                #[cfg(getong_stateright_verif)]
+                verif::emit(self, &market, "PopWait", 0, 0);
                 self.has_new_jobs.wait(&mut market);
                 market.open_count += 1;
+                #[cfg(getong_stateright_verif)]
+                verif::emit(self, &market, "PopWake", 0, 0);
             }
         }
     }
@@ -133,9 +155,15 @@ impl<Job> JobBroker<Job> {
     pub fn push(&mut self, jobs: VecDeque<Job>) {
         let mut market = self.market.lock();
         if !market.open {
+            #[cfg(getong_stateright_verif)]
+            verif::emit(self, &market, "PushClosed", jobs.len(), 0);
             return;
         }
+        #[cfg(getong_stateright_verif)]
+        let pushed_len = jobs.len();
         market.job_batches.push(jobs);
+        #[cfg(getong_stateright_verif)]
+        verif::emit(self, &market, "Push", pushed_len, 0);
         log::trace!(
             "{}: Pushing jobs. running={}",
             std::thread::current().name().unwrap_or_default(),
@@ -150,9 +178,13 @@ impl<Job> JobBroker<Job> {
         let mut market = self.market.lock();
         if !market.open {
             // remove any jobs to be done
+            #[cfg(getong_stateright_verif)]
+            verif::emit(self, &market, "SplitClosed", jobs.len(), 0);
             jobs.clear();
             return;
         }
+        #[cfg(getong_stateright_verif)]
+        let len_before_split = jobs.len();
         let pieces = 1 + std::cmp::min(
             market.thread_count.saturating_sub(market.open_count),
             jobs.len(),
@@ -173,11 +205,150 @@ impl<Job> JobBroker<Job> {
             market.job_batches.push(to_share);
             self.has_new_jobs.notify_one();
         }
+        #[cfg(getong_stateright_verif)]
+        verif::emit(self, &market, "Split", len_before_split, jobs.len());
     }
 
     /// See whether the market is closed.
     pub fn is_closed(&self) -> bool {
         let market = self.market.lock();
         !market.open && market.job_batches.is_empty() && market.open_count == 0
+    }
+}
+
+/// Instrumentation for the verification machinery under /verif. Compiled only with
+/// `--cfg getong_stateright_verif`; without the flag the crate is unchanged.
+#[cfg(getong_stateright_verif)]
+pub mod verif {
+    use super::{JobBroker, JobMarket};
+    use std::cell::Cell;
+    use std::collections::VecDeque;
+    use std::sync::atomic::{AtomicU64, Ordering};
+    use std::sync::{Arc, RwLock};
+
+    /// One step of the job-market protocol, emitted inside the critical section (after the
+    /// change) except for the two timeout-sleep events.
+    #[derive(Clone, Debug)]
+    pub struct MarketEvent {
+        /// process-wide sequence number; taken while the market lock is held
+        pub seq: u64,
+        /// identifies the market (address of the shared state)
+        pub market: usize,
+        pub thread: String,
+        pub ev: &'static str,
+        pub arg1: usize,
+        pub arg2: usize,
+        /// post-state (meaningless for the unlocked events)
+        pub open: bool,
+        pub thread_count: usize,
+        pub open_count: usize,
+        pub batches: Vec<usize>,
+    }
+
+    type Tracer = Arc<dyn Fn(MarketEvent) + Send + Sync>;
+    static TRACER: RwLock<Option<Tracer>> = RwLock::new(None);
+    static SEQ: AtomicU64 = AtomicU64::new(0);
+
+    pub fn set_tracer(t: Option<Tracer>) {
+        *TRACER.write().unwrap() = t;
+    }
+
+    pub(super) fn emit<Job>(
+        broker: &JobBroker<Job>,
+        market: &JobMarket<Job>,
+        ev: &'static str,
+        arg1: usize,
+        arg2: usize,
+    ) {
+        if let Some(t) = TRACER.read().unwrap().as_ref() {
+            t(MarketEvent {
+                seq: SEQ.fetch_add(1, Ordering::SeqCst),
+                market: Arc::as_ptr(&broker.market) as *const () as usize,
+                thread: std::thread::current().name().unwrap_or_default().to_owned(),
+                ev,
+                arg1,
+                arg2,
+                open: market.open,
+                thread_count: market.thread_count,
+                open_count: market.open_count,
+                batches: market.job_batches.iter().map(VecDeque::len).collect(),
+            });
+        }
+    }
+
+    pub(super) fn emit_unlocked<Job>(broker: &JobBroker<Job>, ev: &'static str, arg1: usize) {
+        if let Some(t) = TRACER.read().unwrap().as_ref() {
+            t(MarketEvent {
+                seq: SEQ.fetch_add(1, Ordering::SeqCst),
+                market: Arc::as_ptr(&broker.market) as *const () as usize,
+                thread: std::thread::current().name().unwrap_or_default().to_owned(),
+                ev,
+                arg1,
+                arg2: 0,
+                open: false,
+                thread_count: 0,
+                open_count: 0,
+                batches: Vec::new(),
+            });
+        }
+    }
+
+    thread_local! {
+        static LOCK_SCOPES: Cell<usize> = const { Cell::new(0) };
+    }
+
+    /// Lives exactly as long as the scope of the market guard it is declared next to, so that
+    /// "the timeout thread sleeps while holding the market lock" is observed structurally.
+    pub struct LockScopeProbe(());
+    impl LockScopeProbe {
+        pub fn enter() -> Self {
+            LOCK_SCOPES.with(|c| c.set(c.get() + 1));
+            LockScopeProbe(())
+        }
+        pub fn held() -> bool {
+            LOCK_SCOPES.with(|c| c.get() > 0)
+        }
+    }
+    impl Drop for LockScopeProbe {
+        fn drop(&mut self) {
+            LOCK_SCOPES.with(|c| c.set(c.get() - 1));
+        }
+    }
+
+    type YieldHook = Arc<dyn Fn(&'static str) + Send + Sync>;
+    static YIELD: RwLock<Option<YieldHook>> = RwLock::new(None);
+    pub fn set_yield_hook(h: Option<YieldHook>) {
+        *YIELD.write().unwrap() = h;
+    }
+    /// A point in a worker loop at which the harness may perturb the OS schedule.
+    #[inline]
+    pub fn yield_point(site: &'static str) {
+        if let Some(h) = YIELD.read().unwrap().as_ref() {
+            h(site);
+        }
+    }
+
+    /// Facade over the crate-private `JobBroker` so that the market can be driven without a
+    /// checker.
+    pub struct Broker(JobBroker<u32>);
+    impl Broker {
+        pub fn new(thread_count: usize, close_at: Option<std::time::SystemTime>) -> Self {
+            Broker(JobBroker::new(thread_count, close_at))
+        }
+        pub fn clone_broker(&self) -> Self {
+            Broker(self.0.clone())
+        }
+        pub fn pop(&mut self) -> VecDeque<u32> {
+            self.0.pop()
+        }
+        pub fn push(&mut self, jobs: VecDeque<u32>) {
+            self.0.push(jobs)
+        }
+        pub fn split_and_push(&mut self, jobs: &mut VecDeque<u32>) {
+            self.0.split_and_push(jobs)
+        }
+        pub fn is_closed(&self) -> bool {
+            self.0.is_closed()
+        }
     }
 }
